@@ -325,6 +325,7 @@ def build(S: Sources) -> Unit:
     errs = []
     from units import cli_common
     vfiles = guarded(lambda: cli_common.cfg_files(S, {"C15"}, "c15"), errs, [])
+    vfiles = vfiles + guarded(lambda: cli_common.builder_files(S, "c15"), errs, [])
     # the effective `ignore` in the terse listing walk (own, else nearest enclosing group's; run-time option first): same Verus unit as C14
     from units import C14
     vfiles = vfiles + guarded(lambda: C14.list_file(S, "c15"), errs, [])
